@@ -56,6 +56,7 @@ type Cex struct {
 	Kinds  []string `json:"kinds,omitempty"`
 	Extra  string   `json:"extra,omitempty"`
 	Ground bool     `json:"ground,omitempty"`
+	Sched  []int    `json:"schedule,omitempty"`
 }
 type RunResult struct {
 	Fn          string       `json:"fn"`
